@@ -29,10 +29,10 @@ m = {
     "hooks": {"guard": "verif", "enable": "none needed: nothing is executed, the checker reads /repo's source (no build-tagged hooks were added)",
               "baseline_off_cmd": baseline, "source_commits": [], "add_only": True},
     "engines": [{"name": "storcheck", "path": "/verif/checker", "serves_properties": [c["property_id"] for c in checks],
-                 "kind_free_text": "repository-specific static analyser (go/packages + go/types + go/ssa + CHA/VTA call graph, x/tools v0.29.0): guard dominance, must-pass-through, who-may-call/touch, nilness, intervals, affine effects, exhaustiveness/sibling tables, taint-to-sink"}],
+                 "kind_free_text": "repository-specific static analyser (go/packages + go/types + go/ssa + CHA/VTA call graph, x/tools v0.29.0): guard dominance (also through private helpers, callers and validator outcomes), must-pass-through path exploration, lockset and re-validation dataflow, who-may-call/touch and goroutine confinement, channel-operation inventory and exit timelines, nilness, intervals, polynomial/division forms, affine effects, exhaustiveness/sibling tables and symbolic wire layout, field-sensitive taint-to-sink with container/channel carriers, escape analysis, bit provenance"}],
     "checks": checks,
     "not_applicable": na,
-    "notes": "Technique family: static analysis only. Every check loads and type-checks /repo's working tree on each run and decides structural necessary conditions of the property (level 'other'); what is not decided is stated per check in level_note and in DESIGN.md. quick = default build (linux/amd64, cgo); thorough = the same rules re-evaluated under CGO_ENABLED=0, GOARCH=386 and GOOS=windows as well, one process per variant. Genuine defects repaired in /repo are 'fix:' commits listed in known_findings.json.",
+    "notes": "Technique family: static analysis only. Every check loads and type-checks /repo's working tree on each run and decides structural necessary conditions of the property (level 'other'); what is not decided is stated per check in level_note and in DESIGN.md. quick = default build (linux/amd64, cgo); thorough = the same rules re-evaluated under CGO_ENABLED=0, GOARCH=386 and GOOS=windows as well, one process per variant, followed by the checker's self-test (every breaking patch of variants/ and seeded/ for the property must fire, every behaviour-preserving patch of benign/ must stay silent; run on scratch copies outside /repo and /verif, reported in the evidence, never affecting the exit status). RULES.md lists every obligation evaluated on the current tree. Genuine defects repaired in /repo are 'fix:' commits listed in known_findings.json.",
 }
 json.dump(m, open(os.path.join(root, "MANIFEST.json"), "w"), indent=1)
 print("MANIFEST: %d checks, %d not_applicable" % (len(checks), len(na)))
